@@ -7,8 +7,15 @@ EXTENDS JudgeCore
    order they were added) - no assumption about how labels are spelled *)
 CodeOfGate(g) == TTCode(g.t)
 
+RECURSIVE C06Fails(_)
 C06Fails(c) ==
-  IF c.result = "nosolution" THEN {}        \* completeness of such claims is decided by Synth.tla
+  IF c.result = "nosolution"
+  THEN \* completeness of such claims is decided by Synth.tla - except for a planted instance, which carries a circuit
+       \* (c.witness) that is checked against the request by the very clauses a returned circuit is checked by
+       IF Has(c, "witness") /\ C06Fails([result |-> "circuit", c |-> c.witness] @@ [x \in DOMAIN c \ {"witness"} |-> c[x]]) = {}
+       THEN {"no-solution-reported-although-the-planted-circuit-is-one"} ELSE {}
+  \* under a time limit the search may give up: neither a circuit nor a claim
+  ELSE IF c.result = "SolverTimeOutError" /\ Has(c, "time_limit") /\ c.time_limit > 0 THEN {}
   ELSE IF c.result # "circuit" THEN {"find_circuit-raised:" \o c.result}
   ELSE
   LET ck == c.c   n == c.n   r == c.r
